@@ -1,6 +1,6 @@
 (* C17 — Galois-field and Reed-Solomon utilities are algebraically correct.
    Property theorems only; proofs in proofs/GFP.v, PolyP.v, RSP.v, C17P.v. *)
-From Verif Require Import Prelude GFM TabGF GFSpec GFP PolyP RSP C17P.
+From Verif Require Import Prelude GFM TabGF GFSpec GFP PolyP PolyCoefP RSP C17P.
 
 (* The run-time tables of every field the library constructs (dumped from
    /repo by gotab: QR, DataMatrix, Aztec 4/6/8/10/12-bit) are exactly what the
@@ -39,21 +39,20 @@ Theorem C17_mul_is_textbook : forall pp size base, In (pp, size, base) small_iso
 Proof. exact mul_textbook. Qed.
 Print Assumptions C17_mul_is_textbook.
 
-(* Polynomial division: terminates, never panics for a non-zero divisor, the
-   remainder is shorter than the divisor (or zero), and
-   dividend = quotient x divisor + remainder at every point of the field.
-   PARTIAL: the full statement is the equality of coefficient lists
-     poly_add (poly_mul f q g) r = p ;
-   what is proved is the equality of the two sides as functions on the field
-   together with the degree bound (not yet the coefficient-wise equality). *)
-Theorem C17_poly_division_partial : forall f, In f library_fields ->
+(* Polynomial division, for every library field and all normalised operands with
+   a non-zero divisor: Divide terminates, never panics, the remainder is shorter
+   than the divisor (or zero), and
+     AddOrSubstract (Multiply quotient divisor) remainder = dividend
+   as coefficient lists (and hence at every point of the field). *)
+Theorem C17_poly_division : forall f, In f library_fields ->
   forall p g, poly_ok f p -> poly_ok f g -> poly_is_zero g = false ->
   exists q r, poly_div f p g = Ok (q, r) /\ poly_ok f q /\ poly_ok f r
     /\ ((length r < length g)%nat \/ poly_is_zero r = true)
+    /\ poly_add (poly_mul f q g) r = p
     /\ forall y, in_field f y ->
        poly_eval f p y = Z.lxor (gf_mul f (poly_eval f q y) (poly_eval f g y)) (poly_eval f r y).
 Proof. exact poly_division. Qed.
-Print Assumptions C17_poly_division_partial.
+Print Assumptions C17_poly_division.
 
 (* Reed-Solomon: for every library field, every data vector, every number of
    check symbols k with 1 <= k and base + k <= size, and EVERY history of
